@@ -23,7 +23,7 @@ CHECKS = {
             'bounded exhaustive enumeration (full product of create_world argument combinations x worlds) with a differential oracle against the native World object',
             'Every combination of world, output-flag pointer, output-directory argument and seed is passed through create_world and the C++ wrapper; every C function and wrapper method is '
             'compared bit-for-bit with a native World built from the same arguments at every lattice point and for every request list of length <= 2, and the declaration files must appear exactly in the requested directory.',
-            'Argument alphabet as stated (3 flag pointers, 3 directory strings, 3 seeds, 4 worlds); thorough tier equals quick tier because the space is already the full product.',
+            'Argument alphabet as stated (3 flag pointers, 4 directory strings incl. a prefix without trailing slash, 3 seeds, 4 worlds); thorough tier equals quick tier because the space is already the full product.',
             'DESIGN.md section 3 C16'),
     'C02': ('exploration', 'E1',
             'bounded exhaustive enumeration of ordered feature lists (all lists of <= 2|3 features with all mode assignments, deviation-bounded for 3|4) on the real library against a reference fold',
@@ -105,8 +105,8 @@ CHECKS = {
             'lattice (cartesian, chunk incl. one across the +-180 meridian: every lattice node once, every lattice cell once, valid VTK node order), a closed ring lattice (annulus) or, per radial level, a closed '
             'surface of 12 n^2 quads with Euler characteristic 2 and total solid angle 4 pi, extruded radially (sphere); every connectivity index refers to an existing node; Depth is the distance below '
             'the top; temperature, velocity, tag and every composition are bit-identical to World::properties at the node position and depth; --filtered and --by-tag outputs contain exactly the cells whose highest '
-            'node tag is selected, with unchanged node values; the written ASCII file is well-formed XML and equals the %.6g rendering of the arrays.',
-            'Only vtu_output_format = ASCII is parsed back; cell counts, bounds and worlds as listed. The tag rule is the one the tool implements and its help text describes.',
+            'node tag is selected, with unchanged node values; the written file is well-formed XML and, parsed back, equals the arrays (ASCII: their %.6g rendering; Base64Inline, Base64Appended, RawBinary and RawBinaryCompressed: byte for byte after decoding by format / offset / header attributes and zlib blocks).',
+            'Output format ASCII for two thirds of the grid files, the four binary formats round-robin for the rest; cell counts, bounds and worlds as listed. The tag rule is the one the tool implements and its help text describes.',
             'DESIGN.md section 3 C18'),
     'C08': ('exploration', 'E1',
             'bounded exhaustive enumeration (full product of 6 base worlds x rigid motions: rotation angle x translation in cartesian worlds, common longitude offsets x query longitude aliases in spherical worlds) with a metamorphic oracle: moved world at moved point against base world at base point',
